@@ -1357,3 +1357,7 @@ package core
 //@ func (*Location).RemRule
 //@   mark[ruleGone] at "call:Rem": true
 //@   assert[C12+C10.remrule_clears_the_flag_after_the_rule] at "call:RemProp": marked(ruleGone)
+
+// C13: mapToPairs fills one slot per sorted key (the second loop's write index is the range index).
+//@ func mapToPairs
+//@   loop 2: invariant[C13.maptopairs_write_index_is_the_range_index] i == rangeindex + 1 && len(pairs) == len(keys)
